@@ -190,6 +190,8 @@ pub struct Case {
     /// run the same commands over a TLS upgrade (real rustls client inside the transport); the
     /// observation's output is the plaintext greeting followed by what the client decrypted
     pub over_tls: bool,
+    /// never accompany this case by a connection on another thread
+    pub no_interloper: bool,
     /// never run predecessor connections before this case (it is one itself)
     pub no_predecessors: bool,
     pub conv: bool,
@@ -221,6 +223,7 @@ impl Case {
             minimal_shim: false,
             via_run_on_stream: false,
             over_tls: false,
+            no_interloper: false,
             no_predecessors: false,
             conv: false,
             log_reads: true,
@@ -321,6 +324,8 @@ thread_local! {
     /// set while a predecessor connection runs (no predecessors for predecessors)
     static IN_PRELUDE: std::cell::Cell<bool> = const { std::cell::Cell::new(false) };
     pub static PRELUDES_RUN: std::cell::Cell<u64> = const { std::cell::Cell::new(0) };
+    /// interlopers run on behalf of cases of this worker thread
+    pub static INTERLOPERS_RUN_HERE: std::cell::Cell<u64> = const { std::cell::Cell::new(0) };
 }
 
 /// A server thread serves one connection after another. What an earlier connection on the same
@@ -341,116 +346,12 @@ fn run_predecessors(case: &Case) {
     }
     IN_PRELUDE.with(|f| f.set(true));
     let mut r = Rng::for_case(h, "predecessor", 0);
-    let col = |n: &str, t: msql_srv::ColumnType| msql_srv::Column { table: "t".into(), column: n.into(), coltype: t, colflags: msql_srv::ColumnFlags::empty() };
-    use crate::shim::{Cell as SC, OnErr, QOp, QProg, RowForm, V};
     let heavy = h % 150 == 0;
     for round in 0..r.range(1, 3) {
-        let variant = if heavy && round == 0 { 8 } else { r.below(8) };
-        let mut c = match variant {
-            0 => {
-                // a reply cut by a transport write error somewhere inside it
-                let cols = vec![col("a", msql_srv::ColumnType::MYSQL_TYPE_VAR_STRING), col("b", msql_srv::ColumnType::MYSQL_TYPE_LONG)];
-                let mut ops = vec![QOp::Start(0)];
-                for k in 0..r.range(1, 30) {
-                    ops.push(QOp::Row(vec![SC::val(V::Bytes(format!("leftover-of-an-earlier-client-{}", k).into_bytes())), SC::val(V::I32(1234567))], RowForm::Owned));
-                }
-                ops.push(QOp::Finish);
-                let mut c = Case::new(vec![Cmd::query(b"q").seq(r.below(256) as u8)], vec![Script::Q(QProg { colsets: vec![cols], ops, on_err: OnErr::Drop })]);
-                c.fault.err_at = Some(3 + r.below(40));
-                c.fault.persistent = r.bool();
-                c.fault.err_kind = r.below(3) as u8;
-                c
-            }
-            1 => {
-                // the backend returns its own error inside a row (text or binary), NULL written before
-                let bin = r.bool();
-                let t = if bin { msql_srv::ColumnType::MYSQL_TYPE_LONG } else { msql_srv::ColumnType::MYSQL_TYPE_VAR_STRING };
-                let n = r.range(2, 9) as usize;
-                let cols: Vec<_> = (0..n).map(|k| col(&format!("c{}", k), t)).collect();
-                let mut ops = vec![QOp::Start(0), QOp::Col(SC::val(V::Null))];
-                for k in 1..r.range(1, n as u64 - 1) {
-                    ops.push(QOp::Col(SC::val(V::I32(0x7F7F_7F00 + k as i32))));
-                }
-                ops.push(QOp::Bail(4711));
-                let prog = QProg { colsets: vec![cols.clone()], ops, on_err: OnErr::Drop };
-                if bin {
-                    Case::new(vec![Cmd::prepare(b"p"), Cmd::execute(1, &[], false)], vec![Script::PrepOk { id: 1, params: vec![], cols }, Script::Q(prog)])
-                } else {
-                    Case::new(vec![Cmd::query(b"q")], vec![Script::Q(prog)])
-                }
-            }
-            2 => {
-                // long data sent, statement closed without executing; connection ends cleanly or not
-                let pc = col("p", msql_srv::ColumnType::MYSQL_TYPE_BLOB);
-                let id = *r.pick(&[1u32, 7, 21, 22, 11, 0x0A0B_0C0D]);
-                let mut cmds = vec![Cmd::prepare(b"p"), Cmd::long_data(id, 0, b"ABANDONED-BY-AN-EARLIER-CLIENT/"), Cmd::long_data(id, 1, b"second/")];
-                if r.bool() {
-                    cmds.push(Cmd::close(id));
-                }
-                if r.bool() {
-                    cmds.push(Cmd::quit());
-                }
-                Case::new(cmds, vec![Script::PrepOk { id, params: vec![pc.clone(), pc], cols: vec![] }])
-            }
-            3 => {
-                // statements left open (with bound types), then an execute of an unknown id ends the connection
-                let pc = col("p", msql_srv::ColumnType::MYSQL_TYPE_LONGLONG);
-                let mut cmds = Vec::new();
-                let mut scripts = Vec::new();
-                for id in [1u32, 7, 11, 12, 13, 21, 22, 23, 0x0A0B_0C0D] {
-                    cmds.push(Cmd::prepare(b"p"));
-                    scripts.push(Script::PrepOk { id, params: vec![pc.clone()], cols: vec![] });
-                    cmds.push(Cmd::execute(id, &[wire::Param { typ: wire::T_LONGLONG, unsigned: true, value: Some(wire::PVal::Int(7)), long: false }], true));
-                    scripts.push(Script::Q(QProg::completed(0, 0)));
-                }
-                cmds.push(Cmd::execute(0x7777_7777, &[], false));
-                Case::new(cmds, scripts)
-            }
-            4 => {
-                // the other kind of shim as far as TLS is concerned (the client stays in plaintext)
-                let mut c = Case::new(vec![Cmd::ping()], vec![]);
-                if case.tls.is_none() {
-                    c.tls = TLS_MATERIAL.get_or_init(|| crate::tls::TlsMaterial::generate().ok()).as_ref().map(|m| m.server_optional.clone());
-                }
-                c
-            }
-            5 => {
-                // the stream ends in the middle of a command; odd request ids before
-                let mut c = Case::new(vec![Cmd::ping().seq(200), Cmd::query(b"select 1 from somewhere").seq(77)], vec![Script::Q(QProg::completed(1, 1))]);
-                let (inp, _) = c.input();
-                c.fault.eof_after = Some(inp.len() - 1 - r.below(10) as usize);
-                c
-            }
-            6 => {
-                // a wide binary resultset with NULLs, left to the destructor
-                let n = r.range(7, 40) as usize;
-                let cols: Vec<_> = (0..n).map(|k| col(&format!("c{}", k), msql_srv::ColumnType::MYSQL_TYPE_LONG)).collect();
-                let ops = vec![QOp::Start(0), QOp::Row((0..n).map(|k| if k % 2 == 0 { SC::val(V::Null) } else { SC::val(V::I32(-1)) }).collect(), RowForm::Owned), QOp::DropRow];
-                Case::new(vec![Cmd::prepare(b"p"), Cmd::execute(1, &[], false)], vec![Script::PrepOk { id: 1, params: vec![], cols: cols.clone() }, Script::Q(QProg { colsets: vec![cols], ops, on_err: OnErr::Drop })])
-            }
-            8 => {
-                // (rare, heavy) a text row whose first cell fills a 2^24-1 packet, numbers behind it,
-                // over a transport that stops accepting writes after 1 MiB: a value encoder meets the
-                // transport error in the middle of a cell
-                let cols = vec![col("big", msql_srv::ColumnType::MYSQL_TYPE_LONG_BLOB), col("n", msql_srv::ColumnType::MYSQL_TYPE_LONGLONG), col("f", msql_srv::ColumnType::MYSQL_TYPE_DOUBLE), col("s", msql_srv::ColumnType::MYSQL_TYPE_VAR_STRING)];
-                let lens = [wire::MAXP - 4 - r.below(3) as usize, wire::MAXP - 4 - 7];
-                let ops = vec![QOp::Start(0), QOp::Col(SC::val(V::Stream(h, 1, lens[r.usize(2)]))), QOp::Col(SC::val(V::I64(1234567))), QOp::Col(SC::val(V::F64(-7654.25))), QOp::Col(SC::val(V::Bytes(b"left behind".to_vec()))), QOp::EndRow, QOp::Finish];
-                let mut c = Case::new(vec![Cmd::query(b"big")], vec![Script::Q(QProg { colsets: vec![cols], ops, on_err: OnErr::Drop })]);
-                // write operations so far: greeting pieces, OK, header packets; fail every write from the
-                // first one that follows about 1 MiB of output
-                c.write_limit = 1 << 20;
-                c.fault.err_at = Some(10 + r.below(6));
-                c.fault.persistent = true;
-                c
-            }
-            _ => {
-                // a rejected login
-                let mut c = Case::new(vec![Cmd::ping()], vec![]);
-                c.auth_reject = Some(99);
-                c
-            }
-        };
+        let variant = if heavy && round == 0 { 8 } else { [0u64, 1, 2, 3, 4, 5, 6, 7, 9, 10][r.usize(10)] };
+        let mut c = aux_case(&mut r, variant, h, case.tls.is_some());
         c.no_predecessors = true;
+        c.no_interloper = true;
         c.log_reads = false;
         if r.bool() {
             c.write_limit = *r.pick(&[1usize, 7, 100, 4096]);
@@ -460,6 +361,178 @@ fn run_predecessors(case: &Case) {
     }
     let _ = take_panic();
     IN_PRELUDE.with(|f| f.set(false));
+}
+
+/// A whole other connection served by ANOTHER THREAD of this process while the connection under test
+/// is blocked in a read(): what a server with a thread per connection does all day. The library has no
+/// process-wide state, so nothing the other connection does (its handshake's character set and
+/// capabilities, its statement ids, bound types, pending long data, errors, abandoned rows) may show
+/// in this one. The interloper is chosen by the case's own input (a replay reproduces it); its own
+/// outcome is not judged.
+pub fn run_interloper(seed: u64) {
+    if cfg!(miri) {
+        return;
+    }
+    let t = std::thread::Builder::new().name("vmon-interloper".into()).spawn(move || {
+        let mut r = Rng::for_case(seed, "interloper", 0);
+        for _ in 0..r.range(1, 2) {
+            let variant = [1u64, 2, 3, 4, 6, 7, 9, 9, 10, 10][r.usize(10)];
+            let mut c = aux_case(&mut r, variant, seed, false);
+            c.no_predecessors = true;
+            c.no_interloper = true;
+            c.log_reads = false;
+            let _ = run_case(&c);
+        }
+        let _ = take_panic();
+    });
+    if let Ok(t) = t {
+        let _ = t.join();
+        INTERLOPERS_RUN.fetch_add(1, std::sync::atomic::Ordering::Relaxed);
+        INTERLOPERS_RUN_HERE.with(|n| n.set(n.get() + 1));
+    }
+}
+pub static INTERLOPERS_RUN: std::sync::atomic::AtomicU64 = std::sync::atomic::AtomicU64::new(0);
+
+/// The connections that predecessors and interlopers are made of.
+fn aux_case(r: &mut Rng, variant: u64, h: u64, parent_has_tls: bool) -> Case {
+    let col = |n: &str, t: msql_srv::ColumnType| msql_srv::Column { table: "t".into(), column: n.into(), coltype: t, colflags: msql_srv::ColumnFlags::empty() };
+    use crate::shim::{Cell as SC, OnErr, QOp, QProg, RowForm, V};
+    match variant {
+        0 => {
+            // a reply cut by a transport write error somewhere inside it
+            let cols = vec![col("a", msql_srv::ColumnType::MYSQL_TYPE_VAR_STRING), col("b", msql_srv::ColumnType::MYSQL_TYPE_LONG)];
+            let mut ops = vec![QOp::Start(0)];
+            for k in 0..r.range(1, 30) {
+                ops.push(QOp::Row(vec![SC::val(V::Bytes(format!("leftover-of-an-earlier-client-{}", k).into_bytes())), SC::val(V::I32(1234567))], RowForm::Owned));
+            }
+            ops.push(QOp::Finish);
+            let mut c = Case::new(vec![Cmd::query(b"q").seq(r.below(256) as u8)], vec![Script::Q(QProg { colsets: vec![cols], ops, on_err: OnErr::Drop })]);
+            c.fault.err_at = Some(3 + r.below(40));
+            c.fault.persistent = r.bool();
+            c.fault.err_kind = r.below(3) as u8;
+            c
+        }
+        1 => {
+            // the backend returns its own error inside a row (text or binary), NULL written before
+            let bin = r.bool();
+            let t = if bin { msql_srv::ColumnType::MYSQL_TYPE_LONG } else { msql_srv::ColumnType::MYSQL_TYPE_VAR_STRING };
+            let n = r.range(2, 9) as usize;
+            let cols: Vec<_> = (0..n).map(|k| col(&format!("c{}", k), t)).collect();
+            let mut ops = vec![QOp::Start(0), QOp::Col(SC::val(V::Null))];
+            for k in 1..r.range(1, n as u64 - 1) {
+                ops.push(QOp::Col(SC::val(V::I32(0x7F7F_7F00 + k as i32))));
+            }
+            ops.push(QOp::Bail(4711));
+            let prog = QProg { colsets: vec![cols.clone()], ops, on_err: OnErr::Drop };
+            if bin {
+                Case::new(vec![Cmd::prepare(b"p"), Cmd::execute(1, &[], false)], vec![Script::PrepOk { id: 1, params: vec![], cols }, Script::Q(prog)])
+            } else {
+                Case::new(vec![Cmd::query(b"q")], vec![Script::Q(prog)])
+            }
+        }
+        2 => {
+            // long data sent, statement closed without executing; connection ends cleanly or not
+            let pc = col("p", msql_srv::ColumnType::MYSQL_TYPE_BLOB);
+            let id = *r.pick(&[1u32, 7, 21, 22, 11, 0x0A0B_0C0D]);
+            let mut cmds = vec![Cmd::prepare(b"p"), Cmd::long_data(id, 0, b"ABANDONED-BY-AN-EARLIER-CLIENT/"), Cmd::long_data(id, 1, b"second/")];
+            if r.bool() {
+                cmds.push(Cmd::close(id));
+            }
+            if r.bool() {
+                cmds.push(Cmd::quit());
+            }
+            Case::new(cmds, vec![Script::PrepOk { id, params: vec![pc.clone(), pc], cols: vec![] }])
+        }
+        3 => {
+            // statements left open (with bound types), then an execute of an unknown id ends the connection
+            let pc = col("p", msql_srv::ColumnType::MYSQL_TYPE_LONGLONG);
+            let mut cmds = Vec::new();
+            let mut scripts = Vec::new();
+            for id in [1u32, 7, 11, 12, 13, 21, 22, 23, 0x0A0B_0C0D] {
+                cmds.push(Cmd::prepare(b"p"));
+                scripts.push(Script::PrepOk { id, params: vec![pc.clone()], cols: vec![] });
+                cmds.push(Cmd::execute(id, &[wire::Param { typ: wire::T_LONGLONG, unsigned: true, value: Some(wire::PVal::Int(7)), long: false }], true));
+                scripts.push(Script::Q(QProg::completed(0, 0)));
+            }
+            cmds.push(Cmd::execute(0x7777_7777, &[], false));
+            Case::new(cmds, scripts)
+        }
+        4 => {
+            // the other kind of shim as far as TLS is concerned (the client stays in plaintext)
+            let mut c = Case::new(vec![Cmd::ping()], vec![]);
+            if !parent_has_tls {
+                c.tls = TLS_MATERIAL.get_or_init(|| crate::tls::TlsMaterial::generate().ok()).as_ref().map(|m| m.server_optional.clone());
+            }
+            c
+        }
+        5 => {
+            // the stream ends in the middle of a command; odd request ids before
+            let mut c = Case::new(vec![Cmd::ping().seq(200), Cmd::query(b"select 1 from somewhere").seq(77)], vec![Script::Q(QProg::completed(1, 1))]);
+            let (inp, _) = c.input();
+            c.fault.eof_after = Some(inp.len() - 1 - r.below(10) as usize);
+            c
+        }
+        6 => {
+            // a wide binary resultset with NULLs, left to the destructor
+            let n = r.range(7, 40) as usize;
+            let cols: Vec<_> = (0..n).map(|k| col(&format!("c{}", k), msql_srv::ColumnType::MYSQL_TYPE_LONG)).collect();
+            let ops = vec![QOp::Start(0), QOp::Row((0..n).map(|k| if k % 2 == 0 { SC::val(V::Null) } else { SC::val(V::I32(-1)) }).collect(), RowForm::Owned), QOp::DropRow];
+            Case::new(vec![Cmd::prepare(b"p"), Cmd::execute(1, &[], false)], vec![Script::PrepOk { id: 1, params: vec![], cols: cols.clone() }, Script::Q(QProg { colsets: vec![cols], ops, on_err: OnErr::Drop })])
+        }
+        8 => {
+            // (rare, heavy) a text row whose first cell fills a 2^24-1 packet, numbers behind it,
+            // over a transport that stops accepting writes after 1 MiB: a value encoder meets the
+            // transport error in the middle of a cell
+            let cols = vec![col("big", msql_srv::ColumnType::MYSQL_TYPE_LONG_BLOB), col("n", msql_srv::ColumnType::MYSQL_TYPE_LONGLONG), col("f", msql_srv::ColumnType::MYSQL_TYPE_DOUBLE), col("s", msql_srv::ColumnType::MYSQL_TYPE_VAR_STRING)];
+            let lens = [wire::MAXP - 4 - r.below(3) as usize, wire::MAXP - 4 - 7];
+            let ops = vec![QOp::Start(0), QOp::Col(SC::val(V::Stream(h, 1, lens[r.usize(2)]))), QOp::Col(SC::val(V::I64(1234567))), QOp::Col(SC::val(V::F64(-7654.25))), QOp::Col(SC::val(V::Bytes(b"left behind".to_vec()))), QOp::EndRow, QOp::Finish];
+            let mut c = Case::new(vec![Cmd::query(b"big")], vec![Script::Q(QProg { colsets: vec![cols], ops, on_err: OnErr::Drop })]);
+            // write operations so far: greeting pieces, OK, header packets; fail every write from the
+            // first one that follows about 1 MiB of output
+            c.write_limit = 1 << 20;
+            c.fault.err_at = Some(10 + r.below(6));
+            c.fault.persistent = true;
+            c
+        }
+        9 => {
+            // a client of another kind: latin1 (or another) connection character set, every capability
+            // bit announced (whether the server offered it or not), a small max-packet announcement,
+            // non-ASCII text; it leaves politely
+            let caps = *r.pick(&[0xFFFF_FFFFu32, 0x0900_0000 | 0x003f_a685, 0x003f_a685]) & !wire::CLIENT_SSL;
+            let cs = *r.pick(&[8u8, 8, 5, 48, 63, 45, 255]);
+            let mp = *r.pick(&[1024u32, 65_536, 1 << 20, 0, 1 << 30]);
+            let cols = vec![col("a", msql_srv::ColumnType::MYSQL_TYPE_VAR_STRING)];
+            let ops = vec![QOp::Start(0), QOp::Row(vec![SC::val(V::Str("na\u{ef}ve caf\u{e9} \u{6570}".into()))], RowForm::Owned), QOp::Row(vec![SC::val(V::Bytes(vec![b'x'; 3000]))], RowForm::Owned), QOp::Finish];
+            let mut c = Case::new(vec![Cmd::query("s\u{e9}lect".as_bytes()), Cmd::ping(), Cmd::quit()], vec![Script::Q(QProg { colsets: vec![cols], ops, on_err: OnErr::Drop })]);
+            c.handshake = wire::handshake41(caps, mp, cs, b"interloper", &wire::handshake41_tail(caps, b"12345678901234567890", b"otherdb", b"mysql_native_password", &[]));
+            c
+        }
+        10 => {
+            // statements under the ids everybody uses, with bound types and long data still pending,
+            // a last-insert-id, an error reply; the client then just goes away (clean end of stream)
+            let pc = col("p", msql_srv::ColumnType::MYSQL_TYPE_VAR_STRING);
+            let mut cmds = Vec::new();
+            let mut scripts = Vec::new();
+            for id in [1u32, 2, 5, 7, 9, u32::MAX] {
+                let np = 1 + (id % 3) as usize;
+                cmds.push(Cmd::prepare(b"p"));
+                scripts.push(Script::PrepOk { id, params: vec![pc.clone(); np], cols: vec![] });
+                let params: Vec<wire::Param> = (0..np).map(|_| wire::Param { typ: wire::T_VAR_STRING, unsigned: false, value: Some(wire::PVal::Bytes(b"FROM-ANOTHER-CONNECTION".to_vec())), long: false }).collect();
+                cmds.push(Cmd::execute(id, &params, true));
+                scripts.push(Script::Q(QProg::completed(17, 0x1D_1D_1D)));
+                cmds.push(Cmd::long_data(id, 0, b"LONG-DATA-OF-ANOTHER-CONNECTION/"));
+            }
+            cmds.push(Cmd::query(b"fails"));
+            scripts.push(Script::Q(QProg { colsets: vec![], ops: vec![QOp::Error(1146, b"Unknown table 'of another connection'".to_vec())], on_err: OnErr::Drop }));
+            Case::new(cmds, scripts)
+        }
+        _ => {
+            // a rejected login
+            let mut c = Case::new(vec![Cmd::ping()], vec![]);
+            c.auth_reject = Some(99);
+            c
+        }
+    }
 }
 
 pub fn run_case(case: &Case) -> Obs {
@@ -477,6 +550,13 @@ pub fn run_case(case: &Case) -> Obs {
     world.fault = case.fault.clone();
     world.kinds = kinds.clone();
     world.log_reads = case.log_reads;
+    if !case.no_interloper && !cfg!(miri) && !IN_PRELUDE.with(|f| f.get()) {
+        // a sixth of the cases: another thread serves another connection while this one waits in a read
+        let hi = hash128(&world.input).0 ^ 0x517C_C1B7_2722_0A95;
+        if hi % 6 == 1 {
+            world.interlope = Some((1 + (hi >> 8) % 9, hi));
+        }
+    }
     world.budget_ops = if case.budget_ops != 0 {
         case.budget_ops
     } else {
@@ -732,6 +812,7 @@ where
                     if !ctx.wants(group, i) {
                         continue;
                     }
+                    let (pre0, int0) = (PRELUDES_RUN.with(|n| n.get()), INTERLOPERS_RUN_HERE.with(|n| n.get()));
                     if ctx.miri && i >= 1 && START.get_or_init(std::time::Instant::now).elapsed().as_secs() > MIRI_BUDGET_S {
                         rep.counters.inc("miri_cases_not_started_time_budget_used_up");
                         continue;
@@ -744,6 +825,8 @@ where
                         let p = take_panic();
                         rep.inconclusive.push(format!("harness panic in {} case {}: {:?}", tag, i, p));
                     }
+                    rep.counters.add("predecessor_connections_run_on_the_same_thread", PRELUDES_RUN.with(|n| n.get()) - pre0);
+                    rep.counters.add("interloper_connections_served_by_another_thread_meanwhile", INTERLOPERS_RUN_HERE.with(|n| n.get()) - int0);
                     for v in rep.violations[before..].iter_mut() {
                         v.case_group = group.to_string();
                         v.case_index = i;
